@@ -156,6 +156,7 @@ def run(w: World, rep: Report):
 
     # ---- R6 DEF binds, CALL runs the binding -----------------------------------
     _def_call(w, rep)
+    _operand_decoders(w, rep)
 
     # ---- R4 / R5 documented operands and stack effect ---------------------------
     _effects_table(w, rep)
@@ -170,6 +171,9 @@ def run(w: World, rep: Report):
     depend(rep, w, 'rules_c03', ('C03.R1', 'C03.R2', 'C03.R4'), 'C06.TD3',
            'OP_CHECK_MULTISIG behaves as documented: false when a key is used more than once, true only with all m '
            'confirmed, pair checks fed (sig, key) on the script\'s own stack (C03.R1/R2/R4 re-evaluated)', floor=6)
+    depend(rep, w, 'rules_c09', ('C09.R2', 'C09.R3'), 'C06.TD9',
+           'what an instruction does depends on the flags of the run: the flags supplied by the embedder (and set by the '
+           'script) reach the bodies run by CALL, LOOP, IF, TRY and EVAL unchanged (C09.R2/R3 re-evaluated)', floor=16)
     rep.explanation = (
         'Decides only the clauses of C06 that are visible in the shape of the code: the RETURN '
         'scoping rules as an inductive invariant over all handlers that run sub-tapes (R1, R1b, '
@@ -531,3 +535,57 @@ def _table_agreement(w: World, rep: Report):
     rep.check('C06.R3', 'vm|aliases', not bad_alias and not missing, file='tapescript/functions.py',
               why='' if not (bad_alias or missing) else f'dangling aliases {bad_alias}; ops without '
               f'their OP_-less alias {missing}')
+
+
+# documented operand types (docs.md op reference): the decoder every instruction of the family applies to what it pops.
+# Hand-transcribed; presence only - an instruction that stops decoding its operands (delegating to the bytes variant,
+# "skipping a round trip") no longer raises on ill-typed operands and the run succeeds where it must fail.
+_DECODERS = {
+    'int': ('OP_ADD_INTS', 'OP_SUBTRACT_INTS', 'OP_MULT_INTS', 'OP_DIV_INT', 'OP_DIV_INTS', 'OP_MOD_INT', 'OP_MOD_INTS',
+            'OP_LESS', 'OP_LESS_OR_EQUAL', 'OP_INT_TO_FLOAT', 'OP_SPLIT', 'OP_SPLIT_STR', 'OP_RANDOM'),
+    'float': ('OP_SUBTRACT_FLOATS', 'OP_DIV_FLOAT', 'OP_DIV_FLOATS', 'OP_MOD_FLOAT', 'OP_MOD_FLOATS', 'OP_FLOAT_LESS',
+              'OP_FLOAT_LESS_OR_EQUAL', 'OP_FLOAT_TO_INT'),
+    'str': ('OP_CONCAT_STR', 'OP_SPLIT_STR'),
+    'bool': ('OP_VERIFY', 'OP_IF', 'OP_IF_ELSE', 'OP_LOOP'),
+}
+_DECODER_FN = {'int': ('bytes_to_int',), 'float': ('bytes_to_float',), 'bool': ('bytes_to_bool',), 'str': ('str', 'decode')}
+
+
+def _operand_decoders(w: World, rep: Report):
+    rep.rule('C06.R8', 'typed instructions decode what they pop with the decoder of their documented operand type '
+             '(int / float / UTF-8 string / bool), so an ill-typed operand is an error', floor=25)
+    for typ, ops in _DECODERS.items():
+        fns = _DECODER_FN[typ]
+        for op in ops:
+            try:
+                fi = w.handler_for(op)
+            except Exception:
+                raise AnalysisError(f'{op}: handler not found')
+            found = _decodes_stack_item(w, fi, fns, depth=0)
+            rep.check('C06.R8', f'functions.{fi.name}|decodes-{typ}', found, line=fi.node.lineno,
+                      file='tapescript/functions.py',
+                      why='' if found else f'{op} is documented to take {typ} operands but no item it pops goes through '
+                      f'{" / ".join(fns)}: an operand that is not a valid {typ} is accepted instead of raising')
+
+
+def _decodes_stack_item(w: World, fi, fns, depth: int) -> bool:
+    cfg = w.cfg(fi)
+    kinds = w.kinds(fi)
+
+    def is_dec(c):
+        return (isinstance(c.func, ast.Name) and c.func.id in fns and c.args) or \
+            (isinstance(c.func, ast.Attribute) and c.func.attr in fns)
+    for nd, c in cfg.nodes_with_call(is_dec):
+        arg = c.args[0] if isinstance(c.func, ast.Name) else c.func.value
+        try:
+            k = kinds.of(arg, nd)
+        except Exception:
+            continue
+        if any(x.tag == 'stack_item' for x in k.walk()):
+            return True
+    # the work may be done by another handler this one calls with its own (tape, stack, cache)
+    if depth < 2:
+        for nd, c in cfg.nodes_with_call(lambda c: isinstance(c.func, ast.Name) and c.func.id in w.handlers):
+            if _decodes_stack_item(w, w.handlers[c.func.id], fns, depth + 1):
+                return True
+    return False
